@@ -155,12 +155,13 @@ func Explain(program *analysis.ProgramInfo, store factstore.ReadOnlyFactStore, g
 		return nil, ErrGoalNotGround
 	}
 	e := &explainer{
-		program: program,
-		store:   store,
-		opts:    opts,
-		cache:   make(map[uint64][]*ProofNode),
-		onStack: make(map[uint64]bool),
-		ruleIDs: make(map[int]string),
+		program:  program,
+		store:    store,
+		opts:     opts,
+		cache:    make(map[uint64][]*ProofNode),
+		onStack:  make(map[uint64]bool),
+		ruleIDs:  make(map[int]string),
+		condFail: make(map[uint64][][]uint64),
 	}
 	proofs := e.explain(goal, 0)
 	if len(proofs) == 0 {
@@ -180,8 +181,11 @@ type explainer struct {
 	onStack map[uint64]bool
 	// ruleIDs memoizes content-addressed rule IDs keyed by index in program.Rules.
 	ruleIDs map[int]string
-	// cuts counts how often a goal was refused because it is on the stack.
-	cuts int
+	// cutLog lists the goals that were refused because they are on the stack,
+	// in the order in which that happened.
+	cutLog []uint64
+	// condFail remembers, per goal, sets of on-stack goals under which the goal has no proof.
+	condFail map[uint64][][]uint64
 }
 
 func (e *explainer) explain(goal ast.Atom, depth int) []*ProofNode {
@@ -190,8 +194,16 @@ func (e *explainer) explain(goal ast.Atom, depth int) []*ProofNode {
 	}
 	h := goal.Hash()
 	if e.onStack[h] {
-		e.cuts++
+		e.cutLog = append(e.cutLog, h)
 		return nil
+	}
+	// A failure that met the cycle cut stays a failure as long as the goals
+	// that were cut are on the stack (cutting more goals cannot add proofs).
+	for _, deps := range e.condFail[h] {
+		if allOnStack(deps, e.onStack) {
+			e.cutLog = append(e.cutLog, deps...)
+			return nil
+		}
 	}
 	if cached, ok := e.cache[h]; ok {
 		// A cached proof was found under a different stack of goals. It can
@@ -203,7 +215,7 @@ func (e *explainer) explain(goal ast.Atom, depth int) []*ProofNode {
 	}
 	e.onStack[h] = true
 	defer delete(e.onStack, h)
-	cutsBefore := e.cuts
+	cutLogStart := len(e.cutLog)
 
 	var proofs []*ProofNode
 
@@ -266,12 +278,35 @@ func (e *explainer) explain(goal ast.Atom, depth int) []*ProofNode {
 		}
 	}
 
-	// A failure that met the cycle cut is only a failure under the current
-	// stack of goals; it must not be remembered.
-	if len(proofs) > 0 || e.cuts == cutsBefore {
+	// The goals other than this one that were cut while proving it.
+	var deps []uint64
+	seen := map[uint64]bool{h: true}
+	for _, c := range e.cutLog[cutLogStart:] {
+		if !seen[c] {
+			seen[c] = true
+			deps = append(deps, c)
+		}
+	}
+	// The caller depends on the same cuts.
+	e.cutLog = append(e.cutLog[:cutLogStart], deps...)
+	switch {
+	case len(proofs) > 0 || len(deps) == 0:
 		e.cache[h] = proofs
+	default:
+		// A failure that met the cycle cut is only a failure while the cut
+		// goals are on the stack; it must not be remembered unconditionally.
+		e.condFail[h] = append(e.condFail[h], deps)
 	}
 	return proofs
+}
+
+func allOnStack(goals []uint64, onStack map[uint64]bool) bool {
+	for _, g := range goals {
+		if !onStack[g] {
+			return false
+		}
+	}
+	return true
 }
 
 // withoutOnStack returns the proofs that do not contain a goal that is on the stack.
